@@ -368,11 +368,38 @@ def _(a):
 
 
 def _env_obj(g, env):
-    e = object.__new__(RA.IndexRangeEnvironment)
-    e.proc = None
+    # built by the real constructor (natively, on a proc without arguments) so
+    # that every attribute the class keeps is present, then the scope chain is
+    # replaced by the generated one
     from collections import ChainMap
+    from exo.core.prelude import SrcInfo
+    si = SrcInfo("c13", 0)
+    e = RA.IndexRangeEnvironment(LoopIR.proc("p", [], [], [LoopIR.Pass(si)], None, si))
     e.env = ChainMap(env)
+    g.ghost["env_state0"] = obj_state(e)
     return e
+
+
+def obj_state(o):
+    """structural fingerprint of the containers an object keeps (identity of the leaves)"""
+    from collections import ChainMap
+    def fp(v):
+        if isinstance(v, ChainMap):
+            return ("chain", tuple(fp(m) for m in v.maps))
+        if isinstance(v, dict):
+            return ("dict", tuple((id(k), fp(x)) for k, x in v.items()))
+        if isinstance(v, (list, tuple)):
+            return (type(v).__name__, tuple(fp(x) for x in v))
+        if isinstance(v, set):
+            return ("set", tuple(sorted(id(x) for x in v)))
+        return id(v)
+    return {k: fp(v) for k, v in vars(o).items()}
+
+
+def query_pure(c):
+    @c.ensures("the query leaves the environment as it found it (no state carried to later queries)")
+    def _(a):
+        return obj_state(a.self) == a.g.ghost["env_state0"]
 
 
 def _cb_callee(c):
@@ -414,6 +441,8 @@ def _(a):
     rel = {"<": v < w, "<=": v <= w, "==": v == w}[a.op]
     return Implies(a.result, rel)
 
+query_pure(cce)
+
 cce.callee("constant_bound",
            result=lambda g, a: (g.optint("cb_lo"), g.optint("cb_hi")),
            ensures=lambda a: bound_ok(a.result, ev(a.expr)),
@@ -442,6 +471,8 @@ def _(a):
     r0 = {"<": u < v, "<=": u <= v, "==": u == v}[a.op0]
     r1 = {"<": v < w, "<=": v <= w, "==": v == w}[a.op1]
     return Implies(a.result, And(r0, r1))
+
+query_pure(cce2)
 
 cce2.callee("constant_bound",
             result=lambda g, a: (g.optint("cb_lo"), g.optint("cb_hi")),
